@@ -16,7 +16,7 @@ RULE = ("every node returned by (a) random generated queries (with and without f
         "through wildcard, descendant, negative-index and reverse-slice selectors — is checked: walking node.location from the root ends "
         "at the very object node.value (identity); node.path() equals the RFC 9535 normalized path of that location computed by the "
         "independent renderer (single quotes; only \\b \\f \\n \\r \\t \\' \\\\ and lower-case \\u00xx escapes; non-negative indices); "
-        "find(node.path(), value) returns exactly that one node; values()/paths()/items() agree with the nodes. Non-trivial: location of "
+        "find(node.path(), value) returns exactly that one node; values()/paths()/items() agree with the nodes, also after the node list was reversed / sorted in place and restored. One case in twenty follows a compile that was rejected half-way through a quoted name on the same environment. Non-trivial: location of "
         "length >= 2 or a name that needs an escape; distinct by (document, location).")
 ASSUMPTIONS = ["normalized path syntax per RFC 9535 2.7 as transcribed in vf/oracle/strings.py", "lone surrogates in member names are out of domain"]
 DECIDING_MONITORS = ["M-node"]
@@ -44,14 +44,30 @@ def check_nodes(jp, rec, query_text, doc, nodes, requery=True, max_nodes=200):
     # nodelist helpers
     try:
         if hasattr(nodes, "values"):
-            vals, paths, items = nodes.values(), nodes.paths(), nodes.items()
-            rec.monitor("M-nodelist")
-            if len(vals) != len(nodes) or any(a is not n.value for a, n in zip(vals, nodes)):
-                return 0, 0, ("values()-disagrees", {})
-            if paths != [n.path() for n in nodes]:
-                return 0, 0, ("paths()-disagrees", {})
-            if len(items) != len(nodes) or any(p != n.path() or v is not n.value for (p, v), n in zip(items, nodes)):
-                return 0, 0, ("items()-disagrees", {})
+            # the node list is a list: asked again after it was reordered in place (reversed, swapped, sorted) the helpers
+            # must describe the nodes as they are now
+            for arrangement in ("as-returned", "reversed", "restored", "sorted-by-path", "restored"):
+                if arrangement == "reversed":
+                    nodes.reverse()
+                elif arrangement == "sorted-by-path":
+                    saved = list(nodes)
+                    nodes.sort(key=lambda n: (len(n.location), repr(n.location)), reverse=True)
+                elif arrangement == "restored":
+                    if "saved" in locals():
+                        nodes[:] = saved
+                    else:
+                        nodes.reverse()
+                vals, paths, items = nodes.values(), nodes.paths(), nodes.items()
+                rec.monitor("M-nodelist")
+                w = {"node_list": arrangement}
+                if len(vals) != len(nodes) or any(a is not n.value for a, n in zip(vals, nodes)):
+                    return 0, 0, ("values()-disagrees", w)
+                if paths != [n.path() for n in nodes]:
+                    return 0, 0, ("paths()-disagrees", w)
+                if len(items) != len(nodes) or any(p != n.path() or v is not n.value for (p, v), n in zip(items, nodes)):
+                    return 0, 0, ("items()-disagrees", w)
+                if len(nodes) < 2:
+                    break
     except Exception as e:  # noqa: BLE001
         return 0, 0, ("nodelist-helper-raises-" + type(e).__name__, {})
     checked = 0
@@ -122,6 +138,10 @@ def run_shard(spec, rec):
                 text = R.choice(["$.rows[%d:%d]" % (n_ - 12, n_), "$.rows[::97]", "$.rows[-1,-2,100,105]", "$..[100]", "$.rows[?@[0] > %d]" % (n_ - 5), "$.rows[-%d]" % n_])
                 rec.feat("case:long-array")
             rec.wal({"query": text})
+            if R.random() < 0.05:
+                # a query rejected half-way through a quoted name, on the same (default) environment, just before
+                mon.observe(jp.compile, R.choice(["$['ab\x01cd']", '$["xy\\uD800"]', "$.a['b', 'c", "$['k1', 'k2\\q']", "$[?@.a == 'pq\\z']", "$['\\u12']"]))
+                rec.feat("after-a-rejected-compile")
             try:
                 with guard(60):
                     o = mon.observe(jp.find, text, doc)
